@@ -98,7 +98,13 @@ fn befp_square_at(keys: &chain::Keys, seed: u64, w: usize, layout: usize, corrup
     if let Some((ax, idx)) = corrupt {
         let mut fill = lv_core::Fill::new(seed, 0xC16B ^ ((w as u64) << 16) ^ (idx as u64));
         let (r, c) = bsq::Sq::coord(ax, idx, pos);
-        bsq::trash_payload(&mut cells[r * w + c], &mut fill);
+        if pos >= k {
+            // a parity cell is replaced as a whole: Reed-Solomon works byte column by byte
+            // column, so only then do the reconstructed originals start with garbage namespaces
+            cells[r * w + c] = fill.bytes(bsq::SHARE);
+        } else {
+            bsq::trash_payload(&mut cells[r * w + c], &mut fill);
+        }
     }
     let sq = bsq::Sq::from_cells(cells, w);
     let rows: Vec<NamespacedHash> = (0..w).map(|i| to_hash(&sq.root(bsq::Ax::Row, i))).collect();
